@@ -305,6 +305,21 @@ func Rep(maxDocs, maxRep, nk int, yield func(idx int64, batch []Doc) bool) {
 // `_id` is added by MixDoc.
 const NMix = 12
 
+// vary makes a term's payload depend on the document index, so that two documents of the same
+// kind never carry identical postings (a cursor that is off by one posting must be visible).
+func vary(t Term, i int) Term {
+	t.Freq += i
+	locs := make([]Loc, len(t.Locs))
+	for k, l := range t.Locs {
+		l.P += i
+		l.S += 10 * i
+		l.E += 10 * i
+		locs[k] = l
+	}
+	t.Locs = locs
+	return t
+}
+
 func MixDoc(kind int, tag string, i int) Doc {
 	id := IDField(tag, i)
 	switch kind {
@@ -313,18 +328,18 @@ func MixDoc(kind int, tag string, i int) Doc {
 	case 1: // 1-hit candidate in a, shared term in b (doc values)
 		return Doc{id, fld("a", Term{T: fmt.Sprintf("u%s%d", tag, i), Freq: 1}), fld("b", Term{T: "x", Freq: 1})}
 	case 2: // locations, stored
-		return Doc{id, stored(fld("a", TermKind("x", KF2L1, ""), TermKind("y", KF1, "")), "hello"), fld("b", TermKind("y", KF2L1, ""))}
+		return Doc{id, stored(fld("a", vary(TermKind("x", KF2L1, ""), i), TermKind("y", KF1, "")), "hello"), fld("b", vary(TermKind("y", KF2L1, ""), i))}
 	case 3: // repeated field a + stored twice
-		return Doc{id, stored(fld("a", TermKind("x", KF1, "")), "v1"), stored(fld("a", TermKind("x", KF2L1, ""), TermKind("", KF1, "")), "v2")}
+		return Doc{id, stored(fld("a", TermKind("x", KF1, "")), "v1"), stored(fld("a", vary(TermKind("x", KF2L1, ""), i), TermKind("", KF1, "")), "v2")}
 	case 4: // composite c naming a and b
-		return Doc{id, fld("a", TermKind("x", KF2L1, "")), fld("b", TermKind("x", KF1, "")),
+		return Doc{id, fld("a", vary(TermKind("x", KF2L1, ""), i)), fld("b", vary(TermKind("x", KF1, ""), i)),
 			fld("c", Term{T: "x", Freq: 3, Locs: []Loc{{F: "a", P: 1, S: 0, E: 3}, {P: 9, S: 5, E: 6}, {F: "b", P: 1, S: 0, E: 1}}})}
 	case 5: // binary terms, big payload
 		return Doc{id, fld("a", TermKind("y\x00\xfe", KF300L2, ""), TermKind("\xff", KF1, "")), fld("d", TermKind("y\x00\xfe", KF1, ""), TermKind("x", KF1, ""))}
 	case 6: // stored-only field (no terms), empty stored value
 		return Doc{id, Field{N: "z", St: true, Val: []byte("only stored")}, Field{N: "a", St: true, Val: []byte{}}}
 	case 7: // empty term everywhere, doc values
-		return Doc{id, fld("a", TermKind("", KF2L1, "")), fld("b", TermKind("", KF1, ""), TermKind("x", KF2L1, ""))}
+		return Doc{id, fld("a", vary(TermKind("", KF2L1, ""), i)), fld("b", TermKind("", KF1, ""), vary(TermKind("x", KF2L1, ""), i))}
 	case 8: // nothing at all, not even _id
 		return Doc{}
 	case 9: // many terms in a doc-value field
